@@ -17,6 +17,7 @@ import (
 func init() {
 	register(&Scenario{
 		Prop:      "C28",
+		Preempt:   true,
 		Run:       runC28,
 		NeedsRace: true,
 		Real: []string{
